@@ -36,7 +36,7 @@ ASSUMPTIONS = [
 PROBES = ["restart_after_other_use", "feature_all_steps", "resim_old_buffers_checked", "shared_underlier_resim",
           "prev_output_corrupted_then_hedged", "model_raise_then_hedged", "hedger_cast", "listed_hedge",
           "lazy_model", "requires_grad_flag_flipped", "kept_feature_reused", "listed_quote_vs_fresh_pricer", "clone_opposite_grad_mode", "clone_opposite_module_mode",
-          "kept_bs_module_reused"]
+          "kept_bs_module_reused", "attribute_assigned_on_live_object"]
 
 
 class SimFault(Exception):
@@ -194,7 +194,17 @@ def generate(rng):
 
     while len(ops) < n_ops:
         actor = rng.choice(actors)
-        kind = rng.wchoice([("simulate", 3), ("hedger_op", 6), ("quant", 4), ("cast", 1), ("fault", 10 * fault_rate)])
+        kind = rng.wchoice([("simulate", 3), ("hedger_op", 6), ("quant", 4), ("cast", 1), ("fault", 10 * fault_rate), ("set_attr", 1)])
+        if kind == "set_attr":
+            # the user re-parameterises a live object: results afterwards depend on the new attribute only
+            if rng.chance(0.5):
+                p = rng.choice(prims)
+                emit({"op": "set_attr", "target": p["id"], "attr": "cost", "value": rng.choice([0.0, 1e-3, 0.01])}, actor)
+            else:
+                d = rng.choice([x for x in derivs if x["kind"] in OPTION_KINDS] or derivs)
+                if d["kind"] in OPTION_KINDS:
+                    emit({"op": "set_attr", "target": d["id"], "attr": "strike", "value": rng.choice([0.9, 1.0, 1.1, 1.25])}, actor)
+            continue
         if kind == "simulate":
             if rng.chance(0.8):
                 d = rng.choice(derivs)
@@ -558,6 +568,10 @@ def _execute(program, stats, hist):
             cast_module_outputs(h.inputs, DT[op["dtype"]])
             stats.probe("hedger_cast")
             hist.add(actor=op.get("actor"), op="hedger_to", hedger=op["hedger"], dtype=op["dtype"])
+        elif name == "set_attr":
+            setattr(world.instrument(op["target"]), op["attr"], op["value"])
+            stats.probe("attribute_assigned_on_live_object")
+            hist.add(actor=op.get("actor"), op="set_attr", target=op["target"], attr=op["attr"], value=op["value"])
         elif name == "instrument_to":
             world.primaries[op["target"]].to(DT[op["dtype"]])
             hist.add(actor=op.get("actor"), op="instrument_to", target=op["target"], dtype=op["dtype"])
